@@ -477,6 +477,30 @@ pub fn random_history(out: &mut Out, tag: &str, seed: u64, net: NetID, blocks: u
         d.seal_next(Some(true));
         d.seal_next(Some(true));
     }
+    // blocks that differ only in how a transaction spells "no signatures": every spelling is a different transaction and a
+    // different block
+    if net != NetID::Mainnet {
+        let a = d.wal.address(CovKind::True);
+        let f = d.faucet(vec![mk_coin(a, 90_000_000, Denom::Mel, &[])], 0, 203);
+        if d.apply(&[f.clone()], 0, json!({"why": "coin for the signature-spelling twins"})) {
+            d.seal_next(Some(false));
+            let h = d.view().height;
+            let c = (CoinID::new(f.hash_nosigs(), 0), CoinDataHeight { coin_data: f.outputs[0].clone(), height: BlockHeight(h.0 - 1) });
+            let base = d.cur;
+            if let Some(tx) = d.build(TxKind::Normal, &[c], vec![], 1, vec![], 500) {
+                let spellings: Vec<(&str, Vec<Vec<u8>>)> = vec![("no entries", vec![]), ("one empty entry", vec![vec![]]), ("two empty entries", vec![vec![], vec![]]),
+                                                                ("one zero byte", vec![vec![0]])];
+                for (name, sg) in spellings {
+                    let mut t = tx.clone();
+                    t.sigs = sg.into_iter().map(|x| x.into()).collect();
+                    let (nid, ok) = d.w.batch(base, &[t], 0, json!({"why": format!("signature spelling: {}", name)}));
+                    if ok {
+                        d.w.seal(nid, None, json!({"why": format!("block of the spelling: {}", name)}));
+                    }
+                }
+            }
+        }
+    }
 }
 
 /// one random batch against the current state
